@@ -169,57 +169,54 @@ CO_ERR CONmtHbConsActivate(CO_HBCONS *hbc, uint16_t time, uint8_t nodeid)
     CO_NMT     *nmt;
     CO_HBCONS  *act;
     CO_HBCONS  *prev;
-    CO_HBCONS  *found = 0;
 
     nmt = &(hbc->Node->Nmt);
+
+    /* a node can be monitored by a single consumer, only */
+    if (time > 0) {
+        act = nmt->HbCons;
+        while (act != 0) {
+            if (act->NodeId == nodeid) {
+                return (CO_ERR_OBJ_INCOMPATIBLE);
+            }
+            act = act->Next;
+        }
+    }
+
+    /* remove this consumer out of the active chain */
     prev = 0;
     act  = nmt->HbCons;
-    while (act != 0) {
-        if (act->NodeId == nodeid) {
-            found = act;
-            break;
-        }
+    while ((act != 0) && (act != hbc)) {
         prev = act;
         act  = act->Next;
     }
-
-    if (found != 0) {
-        if (time > 0) {
-            result = CO_ERR_OBJ_INCOMPATIBLE;
-        } else {
-            if (hbc->Tmr >= 0) {
-                err = COTmrDelete(&nmt->Node->Tmr, hbc->Tmr);
-                if (err < 0) {
-                    result = CO_ERR_TMR_DELETE;
-                }
+    if (act == hbc) {
+        if (hbc->Tmr >= 0) {
+            err = COTmrDelete(&nmt->Node->Tmr, hbc->Tmr);
+            if (err < 0) {
+                result = CO_ERR_TMR_DELETE;
             }
-            hbc->Time   = time;
-            hbc->NodeId = nodeid;
-            hbc->Tmr    = -1;
-            hbc->Event  = 0;
-            hbc->State  = CO_INVALID;
-            hbc->Node   = nmt->Node;
-            if (prev == 0) {
-                nmt->HbCons = hbc->Next;
-            } else {
-                prev->Next  = hbc->Next;
-            }
-            hbc->Next   = 0;
         }
+        if (prev == 0) {
+            nmt->HbCons = hbc->Next;
+        } else {
+            prev->Next  = hbc->Next;
+        }
+    }
+
+    hbc->Time   = time;
+    hbc->NodeId = nodeid;
+    hbc->Tmr    = -1;
+    hbc->Event  = 0;
+    hbc->State  = CO_INVALID;
+    hbc->Node   = nmt->Node;
+
+    /* add an enabled consumer to the active chain */
+    if (time > 0) {
+        hbc->Next   = nmt->HbCons;
+        nmt->HbCons = hbc;
     } else {
-        hbc->Time   = time;
-        hbc->NodeId = nodeid;
-        hbc->Tmr    = -1;
-        hbc->Event  = 0;
-        hbc->State  = CO_INVALID;
-        hbc->Node   = nmt->Node;
-
-        if (time > 0) {
-            hbc->Next   = nmt->HbCons;
-            nmt->HbCons = hbc;
-        } else {
-            hbc->Next   = 0;
-        }
+        hbc->Next   = 0;
     }
 
     return (result);
